@@ -130,6 +130,10 @@ class C02(core.Prop):
             out.append({'mode': 'mol', 'case': s, 'graph_keys': 'rev'})
         for base in bases[:6]:
             out.append({'mode': 'names', 'g': base, 'defs': [FRAGS_AA[0], FRAGS_AA[6]], 'aa': True, 'graph_keys': 'rev'})
+        # the other constructors / drivers / an earlier use of the library in the same process (pipeline.VARIANTS)
+        nv = len(pl.VARIANTS) - 1
+        for i, s in enumerate(mc[::(2 if tier == 'quick' else 1)]):
+            out.append({'mode': 'mol', 'case': s, 'variant': 1 + i % nv})
         # shared atoms: membership and member graphs as sets (copy-of-template is the subject of C10)
         from .c10 import PROP as C10P
         sc = [s for s in C10P.shapes(tier) if s.get('mode') != 'coarse']
@@ -162,6 +166,8 @@ class C02(core.Prop):
                 meta, mol = M.resolve.MoleculeResolver.from_graph(frag, g, last_all_atom=aa).resolve()
                 return {'meta': pl.meta_data(meta), 'mol': pl.graph_data(mol)}
             return core.guard(run)
+        if shape.get('variant'):
+            return core.guard(pl.run_variant, M, inp['text'], pl.VARIANTS[shape['variant']], last_all_atom=aa)
         return core.guard(pl.run_resolver, M, inp['text'], last_all_atom=aa, entry=('graph_rev' if shape.get('graph_keys') == 'rev' else 'string'))
 
     @staticmethod
